@@ -430,7 +430,12 @@ func (s *State) diffIOSACLs(al, bl []*cmd, diff []edit.Range) {
 			if before > 0 && idx2Block[before-1] == oldID {
 				return
 			}
-			if before < len(idx2Block) && idx2Block[before] == oldID {
+			// Remark lines at new position don't belong to following block.
+			next := before
+			for next < len(al) && getIOSAction(al[next]) == "remark" {
+				next++
+			}
+			if next < len(idx2Block) && idx2Block[next] == oldID {
 				return
 			}
 		}
